@@ -1,5 +1,5 @@
 use super::*;
-use crate::case::Backend;
+use crate::case::{Backend, Op, Size};
 
 macro_rules! enga_prop {
     ($name:ident, $id:literal, profiles = $profiles:expr, profile = $profile:expr, mode = $mode:expr,
@@ -88,7 +88,7 @@ enga_prop!(C13A, "C13", profiles = CHECKED,
     quick = 240_000, thorough = 5_000_000,
     assumptions = { let mut v = COMMON_ASSUME.to_vec(); v.push("release of the backing store is observed through the verif Unmount event at the top of Memory::unmount (one event = one release)"); v });
 
-enga_prop!(C18, "C18", profiles = CHECKED,
+enga_prop!(C18A, "C18", profiles = CHECKED,
     profile = { let mut p = Profile::base(); p.flavors = &[Fl::Unsync]; p.w_clone = 0; p.w_droparena = 0; p.w_truncate = 14; p.w_fill = 8; p.w_drop = 35; p.w_detach = 10; p.w_minseg = 2; p.w_incdisc = 2; p.w_reopen = 3; p.reopen_modes = &[(3, 0), (3, 1), (1, 2), (1, 3)]; p.backends = &[(4, Backend::Vec), (3, Backend::Anon), (3, Backend::File)]; p },
     mode = Mode::default(),
     nontrivial = |c| c.contains("truncate-with-freelist-and-live"),
@@ -97,10 +97,10 @@ enga_prop!(C18, "C18", profiles = CHECKED,
     assumptions = { let mut v = COMMON_ASSUME.to_vec(); v.push("truncate is only called while refs()==1 and no handle object exists (it re-creates the backing store)"); v });
 
 enga_prop!(C20, "C20", profiles = CHECKED,
-    profile = { let mut p = Profile::base(); p.caps = SMALL_CAPS; p.w_incdisc = 8; p.w_minseg = 6; p.w_discard = 8; p.w_fill = 10; p.w_drop = 45; p.w_dealloc = 8; p.w_detach = 8; p.w_clear = 1; p.w_reopen = 2; p.reopen_modes = &[(2, 0), (2, 2), (1, 3), (1, 1)]; p },
+    profile = { let mut p = Profile::base(); p.caps = SMALL_CAPS; p.w_incdisc = 8; p.big_incdisc = true; p.w_minseg = 6; p.w_discard = 8; p.w_fill = 10; p.w_drop = 45; p.w_dealloc = 8; p.w_detach = 8; p.w_clear = 1; p.w_reopen = 2; p.reopen_modes = &[(2, 0), (2, 2), (1, 3), (1, 1)]; p },
     mode = Mode::default(),
     nontrivial = |c| c.contains("discard-nonempty") || (c.contains("release-too-small") && c.contains("slow-path")) || c.contains("release-discarded"),
-    rule = "Engine A 'discard' histories (frees of every size class, increase_discarded, set_minimum_segment_size, discard_freelist, clear). Per step: discarded() never decreases except through clear; increase_discarded(n) => +n; Freelist::None non-top release => +size; release producing no node => +size and the range is never handed out again; discard_freelist returns the sum of the size fields, adds exactly that, empties the list. Non-trivial = discard_freelist on a non-empty list, or a too-small release in a history that later used the slow path, or a Freelist::None non-top release",
+    rule = "Engine A 'discard' histories (frees of every size class, increase_discarded, set_minimum_segment_size, discard_freelist, clear). Per step: discarded() never decreases except through clear; increase_discarded(n) => +n for n over the whole u32 range (once the true sum passes u32::MAX the counter cannot follow: it must then not decrease and nothing else may move); Freelist::None non-top release => +size; release producing no node => +size and the range is never handed out again; discard_freelist returns the sum of the size fields, adds exactly that, empties the list. Non-trivial = discard_freelist on a non-empty list, or a too-small release in a history that later used the slow path, or a Freelist::None non-top release",
     quick = 800_000, thorough = 10_000_000,
     assumptions = COMMON_ASSUME.to_vec());
 
@@ -111,3 +111,78 @@ enga_prop!(C05, "C05", profiles = CHECKED,
     rule = "Engine A histories on file-backed arenas cut by drop + reopen (map_mut / map_copy / map / map_copy_read_only; capacity same, larger, absent; create or create_new; mapping offset 0..2 pages). After each reopen allocated/discarded/data_offset/min segment/magic/version/free list equal the values at close (for a closed map_copy session: the values saved when it was opened, and the file bytes are unchanged), reserved prefix and every handed-out range byte-identical; the history continues with the shadow map carried over, so C01 disjointness and the C10 policy apply to post-reopen allocations; the histories also contain clear, rewind and discard_freelist (whatever an arena went through before it was closed, it must reopen). Non-trivial = a reopen with >= 1 free segment, >= 1 handed-out range and discarded() > 0",
     quick = 480_000, thorough = 2_000_000,
     assumptions = { let mut v = COMMON_ASSUME.to_vec(); v.push("files live on tmpfs (/dev/shm); durability of sync_all is not observable in-process"); v });
+
+
+// ------------------------------------------------------------------------------------------ C18
+// the ordinary truncate histories plus a rare class of giant arenas: the statement quantifies over n in
+// 0..=4*capacity, and for an arena of 1 GiB or more the upper end of that range lies above u32::MAX
+
+pub struct C18;
+impl Prop for C18 {
+    type Case = CaseA;
+    const ID: &'static str = "C18";
+    fn strategy(tier: Tier) -> BoxedStrategy<CaseA> {
+        use proptest::prelude::*;
+        // in-memory backends only (a file on tmpfs would occupy a gigabyte of /dev/shm per case)
+        let giant = (
+            <C18A as Prop>::strategy(tier),
+            prop_oneof![Just(1u32 << 30), Just((1u32 << 30) + 4096), (1u32 << 30)..(1u32 << 30) + 100_000, Just(u32::MAX - 64)],
+            any::<bool>(),
+            prop::collection::vec(
+                prop_oneof![
+                    3 => (0u8..8).prop_map(|k| Op::Truncate { n: Size::MaxMinus(k) }),
+                    3 => (-4i8..=4).prop_map(|d| Op::Truncate { n: Size::Half(d) }),
+                    2 => (-20i8..=20).prop_map(|d| Op::Truncate { n: Size::Cap(d) }),
+                    2 => (1u32..200).prop_map(|n| Op::AllocBytes { n: Size::Abs(n), owned: false, via: 0 }),
+                    1 => any::<u16>().prop_map(|h| Op::Drop { h }),
+                ],
+                1..=6,
+            ),
+        )
+            .prop_map(|(mut c, cap, anon, tail)| {
+                c.cfg.backend = if anon { Backend::Anon } else { Backend::Vec };
+                c.cfg.cap_extra = cap;
+                // keep the allocated part small: no fill-to-exhaustion and no huge requests in a 1 GiB arena
+                c.ops.retain(|o| !matches!(o, Op::Fill { .. } | Op::Reopen { .. } | Op::Truncate { .. }));
+                c.ops.truncate(6);
+                // sizes relative to remaining() / capacity() would allocate (zero, copy, compare) a gigabyte
+                for o in c.ops.iter_mut() {
+                    match o {
+                        Op::AllocBytes { n, .. } | Op::AllocAligned { n, .. } => {
+                            if !matches!(n, Size::Abs(v) if *v <= 5000) {
+                                *n = Size::Abs(17);
+                            }
+                        }
+                        _ => {}
+                    }
+                }
+                c.ops.extend(tail);
+                c
+            });
+        // a giant case costs about half a second and a gigabyte (the constructors zero the whole arena)
+        prop_oneof![
+            18000 => <C18A as Prop>::strategy(tier),
+            1 => giant,
+        ]
+        .boxed()
+    }
+    fn run(case: &CaseA) -> CaseReport {
+        let mut r = <C18A as Prop>::run(case);
+        if case.cfg.cap_extra >= 1 << 30 {
+            r.classes.insert("giant-arena");
+        }
+        r
+    }
+    fn cases(tier: Tier) -> u64 {
+        <C18A as Prop>::cases(tier)
+    }
+    fn rule() -> &'static str {
+        concat!("as below, plus one case in 18000 (about 40 per quick run) on an arena of 1 GiB or more (Vec / anonymous map) with truncate(4*capacity - k), truncate(2^32 + d) and truncate(capacity + d): for max(n, allocated()) above u32::MAX - where capacity(), a u32, cannot report the value the statement asks for - the call must fail and leave the arena exactly as it was. ", "Engine A histories on unsync::Arena with truncate(n), n around allocated()/capacity() and up to 4x capacity, on Vec/anon/file backends, incl. file arenas reopened writable or copy-on-write; oracle: capacity()==max(n, allocated), allocated/discarded/free list/bytes below allocated unchanged, live ranges intact, afterwards an allocation that fits fresh space must succeed. Non-trivial = a truncate while the free list was non-empty and detached live data existed")
+    }
+    fn assumptions() -> Vec<&'static str> {
+        <C18A as Prop>::assumptions()
+    }
+    fn simplify(c: &CaseA) -> Vec<CaseA> {
+        simplify_case_a(c)
+    }
+}
